@@ -345,6 +345,8 @@ pub struct Case {
     tick_since_quiescent: bool,
     /// C19: results, callbacks (as a sorted multiset per quiescent interval) and quiescent snapshots
     pub pair_log: Arc<std::sync::Mutex<Vec<String>>>,
+    recent: std::collections::VecDeque<String>,
+    pub case_id: u64,
     pair_cbs: Vec<String>,
 }
 
@@ -420,9 +422,12 @@ impl Case {
         for a in 0..nclients {
             let (tx, rx) = mpsc::channel::<Job>();
             let s2 = sched.clone();
+            // the generation is read here, by the thread that owns the case: a client thread that
+            // starts late must not adopt the generation of a later case
+            let my_gen = sched.gen();
             std::thread::spawn(move || {
                 ACTOR.with(|c| c.set(Some(a as Actor)));
-                crate::sched::GEN.with(|c| c.set(Some(s2.gen())));
+                crate::sched::GEN.with(|c| c.set(Some(my_gen)));
                 while let Ok(job) = rx.recv() {
                     let r = std::panic::catch_unwind(std::panic::AssertUnwindSafe(job)).unwrap_or_else(|_| "panic".to_string());
                     s2.finished(a as Actor, r);
@@ -439,6 +444,8 @@ impl Case {
             tick_since_quiescent: false,
             pair_log: Arc::new(std::sync::Mutex::new(Vec::new())),
             pair_cbs: Vec::new(),
+            recent: std::collections::VecDeque::new(),
+            case_id,
             cfg,
             sched,
             ck,
@@ -471,6 +478,18 @@ impl Case {
     }
 
     fn log_step(&mut self, t: &mut Trace, line: &str, at: &str, res: &str) {
+        self.recent.push_back(format!("{} -> {}", line, at));
+        if self.recent.len() > 8 {
+            self.recent.pop_front();
+        }
+        if at == "HUNG" {
+            eprintln!(
+                "STALL case={} async={} step=[{}] proc={:?} pol={:?} clients={:?} recent={:?}",
+                self.case_id, self.cfg.is_async, line, self.sched.status(PROC), self.sched.status(POL),
+                (0..self.cstate.len()).map(|a| format!("{:?}/{:?}", self.cstate[a], self.sched.status(a as Actor))).collect::<Vec<_>>(),
+                self.recent
+            );
+        }
         t.step(line);
         let cbv: Vec<String> = std::mem::take(&mut *self.cb.0.lock().unwrap());
         let cbs = if cbv.is_empty() { "-".to_string() } else { cbv.join(",") };
@@ -624,7 +643,12 @@ impl Case {
     }
 
     pub fn start_op(&mut self, t: &mut Trace, a: usize, op: Op) {
-        assert_eq!(self.cstate[a], CState::Idle);
+        if self.cstate[a] != CState::Idle {
+            // the previous operation of this client has not come back (see settle): nothing can be
+            // started on it; the case ends here and the stuck client is reported by finish()
+            self.hung = true;
+            return;
+        }
         let seen = self.sched.arrivals(a as Actor);
         self.sched.mark_running(a as Actor);
         self.mon.op_started(a, &op, verif::clock::now_ns(), self.last_snap.closed);
@@ -807,6 +831,15 @@ impl Case {
             if en.is_empty() {
                 self.poll_blocked(t, Duration::from_millis(2));
                 if self.enabled().is_empty() {
+                    // nobody can move: a client that is still inside a blocking call has either been
+                    // released already and not woken up yet (a loaded machine takes its time), or is
+                    // stuck for good; give it time before concluding
+                    if self.cstate.iter().any(|c| matches!(c, CState::Blocked(_))) {
+                        self.poll_blocked(t, Duration::from_millis(400));
+                        if !self.enabled().is_empty() || !self.cstate.iter().any(|c| matches!(c, CState::Blocked(_))) {
+                            continue;
+                        }
+                    }
                     break;
                 }
                 continue;
@@ -842,6 +875,16 @@ impl Case {
             }
         }
         if self.mon.closed_ok() && !self.hung {
+            // a closer may still be on its way through the handshakes (another close() returned Ok at
+            // once because the flag was already set): let everybody run on before looking
+            for _ in 0..40 {
+                if self.proc_exited && self.pol_exited {
+                    break;
+                }
+                std::thread::sleep(Duration::from_millis(25));
+                self.settle(t, rng);
+                self.poll_blocked(t, Duration::from_millis(25));
+            }
             if !self.proc_exited {
                 self.mon.worker_alive_after_close("the cache processor");
             }
